@@ -321,6 +321,18 @@ func ConfigByID(id string) (*Config, error) {
 			return nil, err
 		}
 		return MainnetConst(e[0], e[1], e[2], e[3]), nil
+	case strings.HasPrefix(id, "apart0:"):
+		v, err := strconv.ParseInt(id[len("apart0:"):], 10, 64)
+		if err != nil {
+			return nil, err
+		}
+		return Apart0(v), nil
+	case strings.HasPrefix(id, "rand3:"):
+		v, err := strconv.ParseInt(id[len("rand3:"):], 10, 64)
+		if err != nil {
+			return nil, err
+		}
+		return RandomConfig3(v), nil
 	case strings.HasPrefix(id, "apart:"):
 		v, err := strconv.ParseInt(id[len("apart:"):], 10, 64)
 		if err != nil {
